@@ -249,6 +249,9 @@ def main(run_fn_by_pid, argv):
     try:
         fn = run_fn_by_pid(a.pid)
         level = fn(ctx, replay=a.replay) or "model_checking"
+        if not a.replay and os.environ.get("VERIF_NO_SUITE_TRACES") != "1":
+            from . import suitetrace
+            suitetrace.stage(ctx, quick=(tier == "quick"))       # traces of the repository's own tests, validated by TLC
         return ctx.finish(level)
     except Exception as e:
         from . import par
